@@ -665,6 +665,155 @@ def parse_strip(src):
 
 
 # ---------------------------------------------------------------------------------------------------------------
+# round four: the loop heads of MessageSizeCalculator<VariableSize>, the gatherers and the scatterers
+LOOP_NAMES = ["sizeVarI", "gatherOneI", "gatherVarI", "gatherVarJ", "scatterOneI", "scatterVarI", "scatterVarJ"]
+DEFAULT_LOOPS = {k: (0, "(decide (i < n))") for k in LOOP_NAMES}
+# buffer position: (where the counter `index` is initialised: 0 = once per call of the functor, increments per element)
+DEFAULT_COUNTERS = dict(gatherOne=(0, 1), gatherVar=(0, 1), scatterVar=(0, 1))
+_GETSIZE = r"CommPolicy\s*<\s*Data\s*>\s*::\s*getSize\s*\(\s*data\s*,\s*%s\s*\)"
+
+
+def _for_heads(body):
+    """[(var, start, other initialisations, condition, increments, position of the head, end of the head)] of every for loop"""
+    out = []
+    for m in re.finditer(r"\bfor\s*\(", body):
+        e = _matching(body, m.end() - 1, "(", ")")
+        parts = body[m.end():e].split(";")
+        if len(parts) != 3:
+            raise TranslateError("loop head %r" % body[m.end():e])
+        out.append((parts[0].strip(), parts[1].strip(), parts[2].strip(), m.start(), e))
+    return out
+
+
+def _counting_head(head, bound_re, what):
+    """a loop `for(T v = START[, index=0]; COND(v, bound); v++[, index++])`; result (v, START, Lean condition, index initialised here?,
+    index incremented in the head?)"""
+    init, cond, inc = head[0], head[1], head[2]
+    inits = [x.strip() for x in init.split(",")]
+    m = re.fullmatch(r"(?:(?:std\s*::\s*)?size_t|int|unsigned|long|std\s*::\s*size_t)\s+(\w+)\s*=\s*(\d+)", inits[0])
+    if not m:
+        raise TranslateError("%s: loop initialisation %r" % (what, init))
+    v, start = m.group(1), int(m.group(2))
+    idx_init = False
+    for x in inits[1:]:
+        if re.fullmatch(r"index\s*=\s*0", x):
+            idx_init = True
+        else:
+            raise TranslateError("%s: loop initialisation %r" % (what, init))
+    incs = [x.strip() for x in inc.split(",")]
+    idx_inc = 0
+    seen_v = 0
+    for x in incs:
+        if re.fullmatch(r"(?:\+\+\s*%s|%s\s*\+\+|%s\s*\+=\s*1)" % (v, v, v), x):
+            seen_v += 1
+        elif re.fullmatch(r"(?:\+\+\s*index|index\s*\+\+|index\s*\+=\s*1)", x):
+            idx_inc += 1
+        else:
+            raise TranslateError("%s: loop increment %r" % (what, inc))
+    if seen_v != 1:
+        raise TranslateError("%s: loop variable incremented %d times" % (what, seen_v))
+    c = re.sub(bound_re, " BOUND ", cond)
+    lean = _A(c, {v: "i", "BOUND": "n"}).top("bool")
+    return v, start, lean, idx_init, idx_inc
+
+
+def parse_loops(src):
+    src = _strip_comments(src)
+    src = re.sub(r"#ifdef\s+DUNE_ISTL_WITH_CHECKING.*?#endif", " ", src, flags=re.S)
+    loops, counters = {}, {}
+    # MessageSizeCalculator<Data, VariableSize>
+    ms = list(re.finditer(r"BufferedCommunicator\s*::\s*MessageSizeCalculator\s*<\s*Data\s*,\s*VariableSize\s*>\s*::\s*operator\s*\(\s*\)\s*"
+                          r"\(([^)]*)\)\s*const\s*\{", src))
+    if len(ms) != 1:
+        raise TranslateError("MessageSizeCalculator<Data,VariableSize>::operator() not found")
+    body = src[ms[0].end() - 1:_matching(src, ms[0].end() - 1) + 1]
+    heads = _for_heads(body)
+    if len(heads) != 1 or not re.search(r"\bint\s+entries\s*=\s*0\s*;", body[:heads[0][3]]) or \
+       not re.match(r"\s*\{?\s*entries\s*\+=\s*" + _GETSIZE % r"info\s*\[\s*(\w+)\s*\]" + r"\s*;\s*\}?\s*return\s+entries\s*;\s*\}\s*$", body[heads[0][4] + 1:]):
+        raise TranslateError("MessageSizeCalculator<Data,VariableSize>: body not recognised")
+    v, st, lean, ii, ic = _counting_head(heads[0], r"info\s*\.\s*size\s*\(\s*\)", "MessageSizeCalculator")
+    used = re.search(r"info\s*\[\s*(\w+)\s*\]", body[heads[0][4]:]).group(1)
+    if used != v or ii or ic:
+        raise TranslateError("MessageSizeCalculator<Data,VariableSize>: summand not indexed by the loop variable")
+    loops["sizeVarI"] = (st, lean)
+    for cls, flavour, tag in (("MessageGatherer", "SizeOne", "gatherOne"), ("MessageGatherer", "VariableSize", "gatherVar"),
+                              ("MessageScatterer", "SizeOne", "scatterOne"), ("MessageScatterer", "VariableSize", "scatterVar")):
+        ms = list(re.finditer(r"BufferedCommunicator\s*::\s*" + cls + r"\s*<\s*Data\s*,\s*GatherScatter\s*,\s*(\w+)\s*,\s*" + flavour +
+                              r"\s*>\s*::\s*operator\s*\(\s*\)\s*\(([^)]*)\)\s*const\s*\{", src))
+        if len(ms) != 1:
+            raise TranslateError("%s<..,%s>::operator() not found" % (cls, flavour))
+        body = src[ms[0].end() - 1:_matching(src, ms[0].end() - 1) + 1]
+        heads = _for_heads(body)
+        gath = cls == "MessageGatherer"
+        if gath:
+            # outer loop over the neighbours, `index` initialised once before it
+            if not heads or not re.fullmatch(r"const_iterator\s+interfacePair\s*=\s*interfaces\s*\.\s*begin\s*\(\s*\)", heads[0][0]) or \
+               not re.fullmatch(r"interfacePair\s*!=\s*end", heads[0][1]) or not re.fullmatch(r"\+\+\s*interfacePair", heads[0][2]) or \
+               not re.search(r"\bend\s*=\s*interfaces\s*\.\s*end\s*\(\s*\)\s*;", body[:heads[0][3]]):
+                raise TranslateError("%s: loop over the neighbours not recognised" % tag)
+            n_init = len(re.findall(r"\bsize_t\s+index\s*=\s*0\s*;", body[:heads[0][3]]))
+            if n_init != 1 or len(re.findall(r"\bindex\s*=[^=]", body)) != 1:
+                raise TranslateError("%s: initialisation of the buffer position not recognised" % tag)
+            heads = heads[1:]
+            sz = re.findall(r"\b(?:size_t|int)\s+size\s*=", body)
+            if len(sz) != 1:
+                raise TranslateError("%s: `size` not recognised" % tag)
+            ibound = r"\bsize\b"
+        else:
+            ibound = r"info\s*\.\s*size\s*\(\s*\)"
+        want = 2 if flavour == "VariableSize" else 1
+        if len(heads) != want:
+            raise TranslateError("%s: %d loops, expected %d" % (tag, len(heads), want))
+        iv, ist, ilean, iinit, iinc = _counting_head(heads[0], ibound, tag)
+        loops[tag + "I"] = (ist, ilean)
+        inner = body[heads[-1][4] + 1:]
+        # the innermost loop body: one gather/scatter statement, possibly followed by stand-alone increments of `index`
+        mb = re.match(r"\s*\{", inner)
+        block = inner[mb.end():_matching(inner, mb.end() - 1)] if mb else inner[:inner.index(";") + 1]
+        stmts = [x.strip() for x in block.split(";") if x.strip()]
+        extra_inc = sum(1 for x in stmts[1:] if re.fullmatch(r"\+\+\s*index|index\s*\+\+|index\s*\+=\s*1", x))
+        if not stmts or extra_inc != len(stmts) - 1:
+            raise TranslateError("%s: statements in the innermost loop not recognised" % tag)
+        if flavour == "VariableSize":
+            if gath:
+                loc = re.findall(r"\bint\s+local\s*=", body)
+                if len(loc) != 1 or not re.search(r"\[\s*" + iv + r"\s*\]", body[heads[0][4]:heads[1][3]]):
+                    raise TranslateError("%s: `local` not recognised" % tag)
+                jb = _GETSIZE % "local"
+            else:
+                jb = _GETSIZE % (r"info\s*\[\s*" + iv + r"\s*\]")
+            jv, jst, jlean, jinit, jinc = _counting_head(heads[1], jb, tag)
+            loops[tag + "J"] = (jst, jlean)
+        else:
+            jv, jinit, jinc = None, False, 0
+        # the statement of the innermost loop
+        if gath and flavour == "SizeOne":
+            st = re.match(r"\s*\{?\s*buffer\s*\[\s*index\s*\+\+\s*\]\s*=\s*GatherScatter\s*::\s*gather\s*\(\s*data\s*,[^;]*\[\s*(\w+)\s*\][^;]*\[\s*(\w+)\s*\]\s*\)\s*;", inner)
+            if not st or st.group(1) != iv or st.group(2) != iv:
+                raise TranslateError("%s: gather statement not recognised" % tag)
+            counters[tag] = (0, 1 + iinc + extra_inc)
+        elif gath:
+            st = re.match(r"\s*\{?\s*buffer\s*\[\s*index\s*(\+\+)?\s*\]\s*=\s*GatherScatter\s*::\s*gather\s*\(\s*data\s*,\s*local\s*,\s*(\w+)\s*\)\s*;", inner)
+            if not st or st.group(2) != jv:
+                raise TranslateError("%s: gather statement not recognised" % tag)
+            if iinc:
+                raise TranslateError("%s: buffer position advanced per index" % tag)
+            counters[tag] = (0, (1 if st.group(1) else 0) + jinc + extra_inc)
+        elif flavour == "SizeOne":
+            st = re.match(r"\s*\{?\s*GatherScatter\s*::\s*scatter\s*\(\s*data\s*,\s*buffer\s*\[\s*(\w+)\s*\]\s*,\s*info\s*\[\s*(\w+)\s*\]\s*\)\s*;", inner)
+            if not st or st.group(1) != iv or st.group(2) != iv or iinit or iinc or extra_inc:
+                raise TranslateError("%s: scatter statement not recognised" % tag)
+        else:
+            st = re.match(r"\s*\{?\s*GatherScatter\s*::\s*scatter\s*\(\s*data\s*,\s*buffer\s*\[\s*index\s*(\+\+)?\s*\]\s*,\s*info\s*\[\s*(\w+)\s*\]\s*,\s*(\w+)\s*\)\s*;", inner)
+            if not st or st.group(2) != iv or st.group(3) != jv or iinc or jinit:
+                raise TranslateError("%s: scatter statement not recognised" % tag)
+            if not iinit or len(re.findall(r"\bindex\s*=[^=]", body)) != 1:
+                raise TranslateError("%s: initialisation of the buffer position not recognised" % tag)
+            counters[tag] = (0, (1 if st.group(1) else 0) + jinc + extra_inc)
+    return loops, counters
+
+
+# ---------------------------------------------------------------------------------------------------------------
 # enumset.hh
 _TOK = re.compile(r"\s*(::|==|!=|<=|>=|&&|\|\||[!<>()]|[A-Za-z_]\w*|\d+)")
 
@@ -879,6 +1028,13 @@ def analyse(repo):
     except (TranslateError, OSError) as ex:
         dt = dict(DEFAULT_DT)
         status["datatype"] = str(ex)
+    try:
+        with open(os.path.join(repo, "dune/common/parallel/communicator.hh")) as f:
+            loops, counters = parse_loops(f.read())
+        status["loops"] = None
+    except (TranslateError, OSError) as ex:
+        loops, counters = dict(DEFAULT_LOOPS), dict(DEFAULT_COUNTERS)
+        status["loops"] = str(ex)
     bodies = {}
     try:
         with open(os.path.join(repo, "dune/common/enumset.hh")) as f:
@@ -894,7 +1050,7 @@ def analyse(repo):
         except TranslateError as ex:
             bodies[cls] = default
             status["enumset:" + cls] = str(ex)
-    return dict(tests=tests, bodies=bodies, bounds=bounds, dirs=dirs, wrappers=wrappers, layout=lay, strip=stripc, dt=dt, status=status)
+    return dict(tests=tests, bodies=bodies, bounds=bounds, dirs=dirs, wrappers=wrappers, layout=lay, strip=stripc, dt=dt, loops=loops, counters=counters, status=status)
 
 
 def status(repo):
@@ -1036,6 +1192,23 @@ def render(a):
     out.append("")
     out.append("/-- round four: `Interface::strip` erases the neighbour whose lists have `n1` and `n2` entries iff -/")
     out.append("def stripErase (n1 n2 : Nat) : Bool := %s" % a["strip"])
+    out.append("")
+    out.append("/-! round four: the counting loops of `MessageSizeCalculator<Data,VariableSize>`, the gatherers and the scatterers: the values the")
+    out.append("    loop variable takes for bound `n` (`info.size()` / `size` for the loops over the index list, `CommPolicy<Data>::getSize(data, index)`")
+    out.append("    for the loops over the components), as `for(v = start; cond; ++v)` says -/")
+    out.append("def forIdx (start : Nat) (cond : Nat → Nat → Bool) (n : Nat) : List Nat :=")
+    out.append("  ((List.range (n + 2)).filter fun i => decide (start ≤ i)).takeWhile fun i => cond i n")
+    ldoc2 = dict(sizeVarI="MessageSizeCalculator<Data,VariableSize>: loop over the index list", gatherOneI="MessageGatherer<..,SizeOne>: loop over the index list",
+                 gatherVarI="MessageGatherer<..,VariableSize>: loop over the index list", gatherVarJ="MessageGatherer<..,VariableSize>: loop over the components",
+                 scatterOneI="MessageScatterer<..,SizeOne>: loop over the index list", scatterVarI="MessageScatterer<..,VariableSize>: loop over the index list",
+                 scatterVarJ="MessageScatterer<..,VariableSize>: loop over the components")
+    for k in LOOP_NAMES:
+        out.append("/-- %s -/" % ldoc2[k])
+        out.append("def loop_%s (n : Nat) : List Nat := forIdx %d (fun i n => %s) n" % (k, a["loops"][k][0], a["loops"][k][1]))
+    out.append("/-- the buffer position `index`: number of places it is reset inside the loops (0: initialised once per call) and how often it is")
+    out.append("    incremented per gathered / scattered element (`MessageScatterer<..,SizeOne>` uses the loop variable itself) -/")
+    for k in DEFAULT_COUNTERS:
+        out.append("def counter_%s : Nat × Nat := (%d, %d)" % (k, a["counters"][k][0], a["counters"][k][1]))
     out.append("")
     out.append("/-- which items were read from the source (`false`: outside the translator's grammar, built-in transcription used) -/")
     out.append("def translated : List (String × Bool) :=")
